@@ -203,11 +203,11 @@ def _srf(case, tags, **override):
         start["dim"] = 5 - spec["dim"]
     elif reuse == "len_scale":
         start["len_scale"] = spec["len_scale"] * 3.0
-    if reuse == "anis_stored":
+    if reuse in ("anis_stored", "lenlist_iso"):
         start["anis"] = [0.4] * (spec["dim"] - 1)
     model = lib(build_model, start, _what="model construction", _tags=tags)
-    if reuse == "anis_stored":
-        # (the caller evaluates once, makes the model isotropic in place and asks again on the stored positions)
+    if reuse in ("anis_stored", "lenlist_iso"):
+        # (the caller evaluates once, makes the model isotropic in place and asks again)
         return gs.SRF(model, generator="VectorField", seed=case["seed"], mode_no=case["mode_no"], mean_velocity=mean_u, sampling=case.get("sampling", "auto"))
     if reuse == "set_generator":
         # an SRF that already carries a vector-field generator is given its settings anew through the documented set_generator call
@@ -291,7 +291,7 @@ def gen_kernel(draw, tier="quick"):
         "nugget2": draw(logfloat(1e-3, 10.0)),
     }
     if draw(st.integers(0, 3)) == 0:
-        case["reuse"] = draw(st.sampled_from(["set_generator", "anis_stored"]))
+        case["reuse"] = draw(st.sampled_from(["set_generator", "anis_stored", "lenlist_iso"]))
     return case
 
 
@@ -311,6 +311,13 @@ def check_kernel(case, rec):
         rec.label("made_isotropic_in_place_then_stored_positions")
         out = np.asarray(lib(srf, _what="SRF call on the stored positions", _tags=tags), dtype=float)
         case = {k_: v_ for k_, v_ in case.items() if k_ != "reuse"}  # the further objects of this check are built fresh
+    elif case.get("reuse") == "lenlist_iso":
+        with common.quiet():
+            srf(pos)
+            srf.model.len_scale = [float(spec["len_scale"])] * dim  # equal lengths per axis: the model becomes isotropic
+        rec.label("made_isotropic_by_equal_length_list")
+        out = np.asarray(lib(srf, pos, _what="SRF call", _tags=tags), dtype=float)
+        case = {k_: v_ for k_, v_ in case.items() if k_ != "reuse"}
     else:
         out = np.asarray(lib(srf, pos, _what="SRF call", _tags=tags), dtype=float)
     require(out.shape == (dim, n), f"vector field has shape {out.shape}, expected {(dim, n)}", dict(tags, kind="shape"))
